@@ -91,15 +91,17 @@ Definition get2 (d : dmap) (ph : N) (id : ident) : option bool :=
   | None => None
   end.
 
+(* r.decoys[ph], the nil map when missing *)
+Definition inner_of (d : dmap) (ph : N) : inner :=
+  match aget N.eqb ph d with Some i => i | None => [] end.
+
 (* r.decoys[ph][id] = v, creating the inner map when missing *)
 Definition put2 (d : dmap) (ph : N) (id : ident) (v : bool) : dmap :=
-  let i := match aget N.eqb ph d with Some i => i | None => [] end in
-  aput N.eqb ph (aput ident_eqb id v i) d.
+  aput N.eqb ph (aput ident_eqb id v (inner_of d ph)) d.
 
 (* delete(r.decoys[ph], id); if len(r.decoys[ph]) == 0 { delete(r.decoys, ph) } *)
 Definition del2 (d : dmap) (ph : N) (id : ident) : dmap :=
-  let i := match aget N.eqb ph d with Some i => i | None => [] end in
-  match adel ident_eqb id i with
+  match adel ident_eqb id (inner_of d ph) with
   | [] => adel N.eqb ph d
   | i' => aput N.eqb ph i' d
   end.
@@ -227,6 +229,18 @@ Definition valid (s : st) (k : regkey) : bool :=
 Definition matches (s : st) (k : regkey) : bool :=
   enabled (k_tr k) && existsb (ident_eqb (ident_of k)) (lookup s (k_ph k)).
 Definition has_timeout (s : st) (k : regkey) : bool := is_some (aget tkey_eqb (tkey_of k) (timeouts s)).
+
+(* any trace of k in either map, whether or not its transport is enabled *)
+Definition residue (s : st) (k : regkey) : bool :=
+  is_some (get2 (decoys s) (k_ph k) (ident_of k)) || is_some (aget tkey_eqb (tkey_of k) (timeouts s)).
+
+(* Go collects the expired indices by ranging over a map: any order, no duplicates *)
+Definition collects (s : st) (order : list tkey) : Prop :=
+  NoDup order /\ forall key, In key order <-> In key (get_expired s).
+
+(* the registration a timeout index denotes *)
+Definition key_regkey (key : tkey) : regkey :=
+  {| k_secret := snd (snd key); k_tr := fst (snd key); k_ph := fst key |}.
 
 (* ---------------------------------------------------- ghost semantics *)
 (* The life of ONE registration as a function of the history alone: None =
